@@ -517,6 +517,43 @@ def equality_rules(prog, chk, pid):
 
 
 # ------------------------------------------------------------------------------------------------ R8 scalar multiplication
+from bfsa.evalterm import NoEval as _NoEval, eval_term as _eval_term
+
+
+def _value_alts(t: Term):
+    """[(conditions, plain term)] for a value that may be conditional (phi tree)"""
+    t = unsnap(t)
+    if t.op == "phi":
+        return [([(t.args[0], True)] + c, v) for c, v in _value_alts(t.args[1])] + [([(t.args[0], False)] + c, v) for c, v in _value_alts(t.args[2])]
+    return [([], t)]
+
+
+def _add_arms(adds, lid, y_index, var: Term = None):
+    """[(conditions, sign, ok_shape)] : the conditions (enclosing tests inside loop `lid`, path facts, tests inside a conditional Y argument) under which a
+    table entry / the point is added, with the sign of the Y coordinate handed to _add"""
+    out = []
+    for e in adds:
+        base = []
+        seen = False
+        for f in e.ctx:
+            if f[0] == "loop" and f[1] == lid:
+                seen = True
+            elif seen and f[0] == "if":
+                base.append((f[1], bool(f[2])))
+        known = {(unsnap(c).uid, p_) for c, p_ in base}
+        for c, p_ in (getattr(e, "facts", ()) or ()):
+            # path facts (e.g. what is known after `if not k % 2: ...; continue`): only those about the variable the rule reasons over
+            if (unsnap(c).uid, bool(p_)) not in known and var is not None and any(x is var for x in subterms(c)):
+                base.append((c, bool(p_)))
+        a = e.d["args"]
+        for conds, y in _value_alts(a[y_index]):
+            y = unsnap(y)
+            neg = y.op == "un" and y.args[0] == "USub"
+            out.append((base + conds, -1 if neg else 1, unsnap(y.args[1]) if neg else y, e))
+    return out
+
+
+
 def mul_rules(prog, chk, pid):
     """k*P by signed-digit recoding: the structural invariants that make the loops compute k*P given that _add / _double are the group
     law (POLY) -- table entries are the AFFINE multiples 2^j*P (they are fed to _add with Z = 1), every recoding step satisfies
@@ -600,31 +637,35 @@ def mul_rules(prog, chk, pid):
     if ok:
         lr = lrs[0]
         k, arms = digit_arms(lr, "other", res, ex)
-        adds = [e for e in res.events if e.kind == "call" and e.d["callee"].name == "_add" and any(f[0] == "loop" and f[1] == lr.id for f in e.ctx)]
-        recs = []
-        for conds, kn in arms:
-            # which _add (if any) happens under the same conditions
-            sign = 0
-            for e in adds:
-                ec = [(unsnap(f[1]).uid, f[2]) for f in e.ctx if f[0] == "if"]
-                if ec == [(unsnap(c).uid, p_) for c, p_ in conds]:
-                    a = e.d["args"]
-                    y = unsnap(a[5])
-                    sign = -1 if (y.op == "un" and y.args[0] == "USub") else 1
-                    okz = is_const(a[6]) and cval(a[6]) == 1 and "[0]" in show(a[4], 4) and "[1]" in show(a[5], 4)
-                    if not okz:
-                        sign = 99
-            # k' must be (k - sign) // 2
-            want = {1: mk("bin", "FloorDiv", mk("bin", "Sub", k, C(1)), C(2)), -1: mk("bin", "FloorDiv", mk("bin", "Add", k, C(1)), C(2)), 0: mk("bin", "FloorDiv", k, C(2))}.get(sign)
-            recs.append((sign, kn is want, show(kn, 4)))
-        ok = len(recs) == 3 and sorted(r[0] for r in recs) == [-1, 0, 1] and all(r[1] for r in recs)
-        why = "recoding arms (digit, k' = (k - digit)//2 ?, k') are %s" % recs
-        if ok:
-            # parity conditions: digit != 0 exactly when k is odd; digit = -1 exactly when k mod 4 >= 2 (i.e. 3)
-            txt = [(" & ".join(("" if p_ else "not ") + show(c, 4) for c, p_ in conds), next(r[0] for r, a_ in zip(recs, arms) if a_[0] is conds)) for conds, _ in arms]
-            good = all(("% 2" in t_) for t_, _ in txt) and any(d == -1 and "% 4) >= 2" in t_ and "not " not in t_.split("&")[-1] for t_, d in txt)
-            ok = good
-            why = "digit selection is not: odd -> (k mod 4 >= 2 ? -1 : +1), even -> 0 (%s)" % txt
+        adds = [e for e in res.events if e.kind in ("call", "dyncall") and show(e.d.get("callee", e.d.get("fnterm")), 3).rstrip(">").endswith("_add") and any(f[0] == "loop" and f[1] == lr.id for f in e.ctx)]
+        aarms = _add_arms(adds, lr.id, 5, k)
+        # semantic statement, evaluated with the checker's own arithmetic for scalars k of every residue mod 4 (conditions and k' are terms over k):
+        #   exactly one update arm applies; the table entry (x_j, y_j, Z = 1) is added with sign d in {-1, 0, +1}; k' = (k - d) // 2; d = 0 for even k, d = 2 - (k mod 4) for odd k
+        bad = None
+        try:
+            for kv in (0, 1, 2, 3, 4, 5, 6, 7, 1000, 1001, 1002, 1003, (1 << 255) + 1, (1 << 255) + 3, (1 << 256) - 2):
+                env = {k.uid: kv}
+                act = [kn for conds, kn in arms if all(bool(_eval_term(c, env)) == p_ for c, p_ in conds)]
+                if len(act) != 1:
+                    bad = "for k = %d, %d update arms of the scalar apply" % (kv, len(act))
+                    break
+                signs = [sg for conds, sg, y, e in aarms if all(bool(_eval_term(c, env)) == p_ for c, p_ in conds)]
+                d = 0 if kv % 2 == 0 else 2 - (kv % 4)
+                if signs != ([] if d == 0 else [d]):
+                    bad = "for k = %d (k mod 4 = %d) the table entry is added with sign(s) %s, the signed digit is %d" % (kv, kv % 4, signs, d)
+                    break
+                kn_v = _eval_term(act[0], env)
+                if kn_v != (kv - d) // 2:
+                    bad = "for k = %d the scalar becomes %d, (k - d) // 2 is %d" % (kv, kn_v, (kv - d) // 2)
+                    break
+        except _NoEval as e_:
+            raise AnalysisError("recoding step of _mul_precompute is not arithmetic over the scalar (%s)" % e_)
+        # what is added is the table entry itself: (x_j, +-y_j) with Z = 1
+        for conds, sg, y, e in aarms:
+            a_ = e.d["args"]
+            if not (is_const(a_[6]) and cval(a_[6]) == 1 and "[0]" in show(a_[4], 4) and "[1]" in show(y, 4)):
+                bad = bad or "the point added is not the table entry (x_j, +-y_j) with Z = 1"
+        ok, why = bad is None and bool(aarms), bad or "no table entry is ever added"
     chk.require(ok, P("mul-table-recoding"), fi.qualname, "odd k: k mod 4 >= 2 -> add -T_j, k = (k+1)//2 | else add +T_j, k = (k-1)//2; even k: k //= 2", where,
                 "every step keeps k = 2*k' + d where d in {-1, 0, +1} is the sign with which table entry j (affine, Z = 1) is added", why)
 
@@ -700,21 +741,25 @@ def mul_rules(prog, chk, pid):
                     n_if += 1
             return n_if
 
-        ok = len(dbl) == 1 and len(adds) == 2 and all(dbl[0].uid < a.uid for a in adds) and after_loop_ifs(dbl[0]) == 0
+        ok = len(dbl) == 1 and bool(adds) and all(dbl[0].uid < a.uid for a in adds) and after_loop_ifs(dbl[0]) == 0
         why = "each step is not one unconditional doubling followed by at most one addition"
         if ok:
-            signs = {}
-            for a in adds:
-                y = unsnap(a.d["args"][-3])
-                neg = y.op == "un" and y.args[0] == "USub"
-                if not (is_const(a.d["args"][-2]) and cval(a.d["args"][-2]) == 1):
-                    neg = None
-                conds = [(show(f[1], 4), f[2]) for f in a.ctx if f[0] == "if"]
-                signs["neg" if neg else "pos"] = conds
-            okn = "neg" in signs and any("< 0" in c and pol for c, pol in signs["neg"])
-            okp = "pos" in signs and any("> 0" in c and pol for c, pol in signs["pos"])
-            ok = okn and okp
-            why = "digit < 0 does not add -P or digit > 0 does not add +P (%s)" % signs
+            # for each value of the digit: which additions happen, and with which sign of P's Y coordinate (evaluated on the conditions, which are terms over the digit)
+            digit = unsnap(lr.target)
+            aarms = _add_arms(adds, lr.id, len(adds[0].d["args"]) - 3, digit)
+            bad = None
+            try:
+                for dv in (-1, 0, 1):
+                    signs = [sg for conds, sg, y, e in aarms if all(bool(_eval_term(c, {digit.uid: dv})) == p_ for c, p_ in conds)]
+                    if signs != ([] if dv == 0 else [dv]):
+                        bad = "for digit %d the point is added with sign(s) %s" % (dv, signs)
+                        break
+            except _NoEval as e_:
+                raise AnalysisError("the additions of the NAF walk are not selected by tests on the digit (%s)" % e_)
+            for conds, sg, y, e in aarms:
+                if not (is_const(e.d["args"][-2]) and cval(e.d["args"][-2]) == 1):
+                    bad = bad or "the point added is not P scaled to Z = 1"
+            ok, why = bad is None, bad or ""
     chk.require(ok, P("mul-naf-walk"), fi.qualname, "for d in reversed(naf(k)): R = 2R; d < 0: R += -P; d > 0: R += P", where,
                 "left-to-right double-and-add over the NAF digits with the sign of the digit selecting +P / -P (P scaled to Z = 1)", why)
 
